@@ -9,7 +9,7 @@ def run_one(sid, props):
     d = os.path.join(VERIF, 'seeded', sid)
     tmp = tempfile.mkdtemp(prefix='seedrun-')
     try:
-        shutil.copytree('/repo/src', os.path.join(tmp, 'src'))
+        shutil.copytree('/repo', tmp, ignore=shutil.ignore_patterns('target', '.git'), dirs_exist_ok=True)
         p = subprocess.run(['patch', '-p1', '-s', '-i', os.path.join(d, 'patch.diff')], cwd=tmp, capture_output=True, text=True)
         if p.returncode != 0:
             return sid, {'patch': 'DOES-NOT-APPLY ' + p.stdout[-200:]}
